@@ -910,6 +910,142 @@ Qed.
 End AcceptsSound.
 
 (* ---------------------------------------------------------------------------------------------------------- *)
+(* The pipeline work of a whole run is bounded by the requests that were sent: every pipeline step raises the rank
+   of one request and no step lowers any, so a run contains at most 6 pipeline steps per request. Together with
+   [read_requests_progress] (a pipeline step is enabled whenever something read is unanswered) this is termination
+   of the drain: a run cannot keep a read request unanswered for ever without withholding an enabled pipeline step. *)
+Definition is_pipeline (l : label) : bool :=
+  match l with LEnqueue _ _ | LTake _ _ | LStart _ _ | LFinish _ _ => true | _ => false end.
+
+Lemma is_pipeline_label : forall l, is_pipeline l = true <-> pipeline_label l.
+Proof. destruct l; cbn; split; intros; auto; try discriminate; try contradiction. Qed.
+
+Definition count_pipeline (ls : list label) : nat := length (filter is_pipeline ls).
+
+Fixpoint rank_sum (s : state) (L : list req) : nat :=
+  match L with
+  | [] => 0
+  | q :: L' => rank (rs s (fst q) (snd q)) + rank_sum s L'
+  end.
+
+Lemma rank_sum_mono : forall s s' L, (forall c r, rank (rs s c r) <= rank (rs s' c r)) -> rank_sum s L <= rank_sum s' L.
+Proof. induction L; intros; cbn; auto. specialize (H (fst a) (snd a)) as Ha. specialize (IHL H). lia. Qed.
+
+Lemma rank_sum_strict : forall s s' L c r, (forall c r, rank (rs s c r) <= rank (rs s' c r)) ->
+  In (c, r) L -> rank (rs s c r) < rank (rs s' c r) -> rank_sum s L < rank_sum s' L.
+Proof.
+  induction L; intros c r Hm Hin Hlt; cbn; [contradiction|].
+  destruct Hin as [Ha | Hin].
+  - subst a. cbn [fst snd]. pose proof (rank_sum_mono s s' L Hm). lia.
+  - specialize (IHL c r Hm Hin Hlt). specialize (Hm (fst a) (snd a)). lia.
+Qed.
+
+Lemma rank_sum_bound : forall s L, rank_sum s L <= 6 * length L.
+Proof. induction L; cbn; auto. assert (rank (rs s (fst a) (snd a)) <= 6) by (destruct (rs s (fst a) (snd a)); cbn; lia). lia. Qed.
+
+Lemma count_pipeline_app : forall l1 l2, count_pipeline (l1 ++ l2) = count_pipeline l1 + count_pipeline l2.
+Proof. intros. unfold count_pipeline. rewrite filter_app, app_length. reflexivity. Qed.
+
+Theorem pipeline_work_bounded : forall W cap early ls s (L : list req),
+  run W cap early init ls = Some s ->
+  (forall c r, rs s c r <> Fresh -> In (c, r) L) ->
+  count_pipeline ls <= rank_sum s L /\ rank_sum s L <= 6 * length L.
+Proof.
+  intros W cap early ls s L Hrun Hcov. split; [|apply rank_sum_bound].
+  revert s Hrun Hcov. induction ls as [|l ls IH] using rev_ind; intros s Hrun Hcov.
+  - cbn. lia.
+  - rewrite run_app in Hrun. destruct (run W cap early init ls) as [s1|] eqn:E1; [|discriminate].
+    cbn in Hrun. destruct (step W cap early s1 l) as [s2|] eqn:E2; [|discriminate]. inversion Hrun. subst s2.
+    assert (Hr1 : reachable W cap early s1) by (exists ls; exact E1).
+    pose proof (step_rank_mono W cap early s1 l s Hr1 E2) as Hm.
+    assert (Hcov1 : forall c r, rs s1 c r <> Fresh -> In (c, r) L).
+    { intros c r Hn. apply Hcov. intros Hf. specialize (Hm c r). rewrite Hf in Hm. cbn in Hm.
+      destruct (rs s1 c r); cbn in Hm; try lia. contradiction. }
+    specialize (IH s1 eq_refl Hcov1).
+    rewrite count_pipeline_app. unfold count_pipeline at 2. cbn [filter].
+    destruct (is_pipeline l) eqn:Hp; cbn [length].
+    + apply is_pipeline_label in Hp.
+      destruct (pipeline_step_advances W cap early s1 l s Hr1 E2 Hp) as [c [r [Hu Hlt]]].
+      assert (Hin : In (c, r) L). { apply Hcov1. intros Hf. rewrite Hf in Hu. discriminate. }
+      pose proof (rank_sum_strict s1 s L c r Hm Hin Hlt). lia.
+    + pose proof (rank_sum_mono s1 s L Hm). lia.
+Qed.
+
+(* The drain can always complete (repaired code): from every reachable live state some sequence of pipeline steps
+   alone leads to a state in which nothing that was read is unanswered — in every shutdown phase, for every pool
+   size. *)
+Definition sends (ls : list label) : list req :=
+  flat_map (fun l => match l with LSend c r => [(c, r)] | _ => [] end) ls.
+
+Lemma sends_app : forall a b, sends (a ++ b) = sends a ++ sends b.
+Proof. intros. unfold sends. apply flat_map_app. Qed.
+
+Lemma sends_cover : forall W cap early ls s, run W cap early init ls = Some s ->
+  forall c r, rs s c r <> Fresh -> In (c, r) (sends ls).
+Proof.
+  intros W cap early ls. induction ls as [|l ls IH] using rev_ind; intros s Hrun c0 r0 Hn.
+  - cbn in Hrun. inversion Hrun. subst. cbn in Hn. contradiction.
+  - rewrite run_app in Hrun. destruct (run W cap early init ls) as [s1|] eqn:E1; [|discriminate].
+    cbn in Hrun. destruct (step W cap early s1 l) as [s2|] eqn:E2; [|discriminate]. inversion Hrun. subst s2.
+    rewrite sends_app. apply in_app_iff.
+    destruct (rstate_eqb (rs s1 c0 r0) Fresh) eqn:Ef.
+    + right. apply rstate_eqb_eq in Ef.
+      assert (Hr1 : reachable W cap early s1) by (exists ls; exact E1).
+      destruct (reachable_Safe W cap early s1 Hr1) as [J1 J2 J2' J3 J4 J5 J6 J7].
+      open_step E2; split_guards; upd_cases; try contradiction; try congruence; cbn; auto.
+      * pose proof (J6 c r) as Hq. rewrite Ef in Hq. apply existsb_req_in in H0. specialize (Hq H0). discriminate.
+      * subst. pose proof (J7 c r eq_refl). congruence.
+    + left. apply (IH s1 eq_refl). intros Hf. rewrite Hf in Ef. discriminate.
+Qed.
+
+Lemma pipeline_step_ph : forall W cap early s l s', step W cap early s l = Some s' -> pipeline_label l -> ph s' = ph s.
+Proof. intros W cap early s l s' H Hp. open_step H; try contradiction; reflexivity. Qed.
+
+Lemma all_answered_dec : forall s L, (forall c r, rs s c r <> Fresh -> In (c, r) L) ->
+  (forall c r, unanswered (rs s c r) = false) \/ (exists c r, In (c, r) L /\ unanswered (rs s c r) = true).
+Proof.
+  intros s L Hcov.
+  destruct (existsb (fun q => unanswered (rs s (fst q) (snd q))) L) eqn:E.
+  - right. apply existsb_exists in E. destruct E as [[c r] [Hin Hu]]. exists c, r. auto.
+  - left. intros c r. destruct (unanswered (rs s c r)) eqn:Eu; auto.
+    assert (Hin : In (c, r) L). { apply Hcov. intros Hf. rewrite Hf in Eu. discriminate. }
+    assert (Ht : existsb (fun q => unanswered (rs s (fst q) (snd q))) L = true).
+    { apply existsb_exists. exists (c, r). auto. }
+    congruence.
+Qed.
+
+Theorem can_always_drain : forall W cap, (0 < cap)%N -> forall ls s, run W cap false init ls = Some s ->
+  alive (ph s) = true ->
+  exists ls' s', Forall pipeline_label ls' /\ run W cap false s ls' = Some s' /\
+                 ph s' = ph s /\ forall c r, unanswered (rs s' c r) = false.
+Proof.
+  intros W cap Hcap ls s Hrun Halive.
+  remember (6 * length (sends ls) - rank_sum s (sends ls)) as n eqn:Hn.
+  assert (Hle : 6 * length (sends ls) - rank_sum s (sends ls) <= n) by lia. clear Hn.
+  revert ls s Hrun Halive Hle. induction n as [|n IH]; intros ls s Hrun Halive Hle.
+  all: pose proof (sends_cover W cap false ls s Hrun) as Hcov.
+  all: destruct (all_answered_dec s (sends ls) Hcov) as [Hall | [c [r [Hin Hu]]]];
+       [exists [], s; repeat split; auto; constructor|].
+  all: assert (Hr : reachable W cap false s) by (exists ls; exact Hrun).
+  all: destruct (read_requests_progress W cap false eq_refl Hcap s Hr Halive c r Hu) as [l [Hp Hen]].
+  all: destruct (step W cap false s l) as [s1|] eqn:E1; [|contradiction].
+  all: destruct (pipeline_step_advances W cap false s l s1 Hr E1 Hp) as [c1 [r1 [Hu1 Hlt1]]].
+  all: assert (Hin1 : In (c1, r1) (sends ls)) by (apply Hcov; intros Hf; rewrite Hf in Hu1; discriminate).
+  all: pose proof (rank_sum_strict s s1 (sends ls) c1 r1 (step_rank_mono W cap false s l s1 Hr E1) Hin1 Hlt1) as Hstrict.
+  all: pose proof (rank_sum_bound s1 (sends ls)) as Hb.
+  - lia.
+  - assert (Hrun1 : run W cap false init (ls ++ [l]) = Some s1) by (rewrite run_app, Hrun; cbn; rewrite E1; reflexivity).
+    assert (Hs : sends (ls ++ [l]) = sends ls).
+    { rewrite sends_app. destruct l; cbn in Hp; try contradiction; cbn; apply app_nil_r. }
+    pose proof (pipeline_step_ph _ _ _ _ _ _ E1 Hp) as Hph.
+    destruct (IH (ls ++ [l]) s1 Hrun1) as [ls' [s' [Hf [Hr' [Hph' Hall']]]]].
+    + rewrite Hph. exact Halive.
+    + rewrite Hs. lia.
+    + exists (l :: ls'), s'. split; [constructor; auto|]. split; [cbn; rewrite E1; exact Hr'|].
+      split; [congruence | exact Hall'].
+Qed.
+
+(* ---------------------------------------------------------------------------------------------------------- *)
 (* The statements of Props/C12.v, with the run spelled out. *)
 
 Lemma is_reachable : forall W cap early ls s, run W cap early init ls = Some s -> reachable W cap early s.
